@@ -160,7 +160,7 @@ def execute(case):
     lamb_max = case.get("lamb_max", 64.0)
     params = R.make_params({"iteration_limit": limit, "params": {
         "lamb_init": case.get("lamb_init", 1.0), "lamb_max": lamb_max, "rho": case.get("rho", 1e-2),
-        "obj_lower_limit": OBJ_LIMIT, "collect_path": True, "time_limit": 1.0}})
+        "obj_lower_limit": OBJ_LIMIT, "collect_path": True, "time_limit": 1.0, "lamb_min": case.get("lamb_min", 1e-12)}})
     solver = R.RecSolver(E.problem, params)
     P, ev = solver.problem, solver.transform.evaluator
     made = {}
